@@ -241,10 +241,15 @@ public:
 
     //! \brief Read the stored samples from the stream
     void read(std::istream &is){
-        points.resize(IO::readNumber<IO::mode_binary_type, size_t>(is));
-        values.resize(IO::readNumber<IO::mode_binary_type, size_t>(is));
-        IO::readVector<IO::mode_binary_type>(is, points);
-        IO::readVector<IO::mode_binary_type>(is, values);
+        size_t num_points = IO::readNumber<IO::mode_binary_type, size_t>(is);
+        size_t num_values = IO::readNumber<IO::mode_binary_type, size_t>(is);
+        if (is.fail()) throw std::runtime_error("ERROR: incomplete checkpoint, cannot read the number of stored samples");
+        std::vector<double> new_points(num_points), new_values(num_values); // commit only if the whole block is read
+        IO::readVector<IO::mode_binary_type>(is, new_points);
+        IO::readVector<IO::mode_binary_type>(is, new_values);
+        if (is.fail()) throw std::runtime_error("ERROR: incomplete checkpoint, the stored samples are truncated");
+        points = std::move(new_points);
+        values = std::move(new_values);
     }
 
     //! \brief Add a point to the stored list.
